@@ -91,12 +91,16 @@ def fresh(sd=0):
     B2 = pd.DataFrame({'id': [7, 8, 9], 's': pd.Series(['c d', 'a', 'd d c a'], dtype=object)})
     C = pd.DataFrame({'_id': [0, 1, 2, 3, 4], 'l_id': [1, 2, 3, 4, 5], 'r_id': ['u', 'u', 'w', 'x', 'v']})
     C2 = pd.DataFrame({'_id': [0, 1, 2], 'l_id': [1, 2, 3], 'r_id': [7, 9, 9]})
+    # row labels of candidate sets are not 0..n-1 in general (repeated after a concat, kept from a selection)
+    C.index = [0, 1, 2, 0, 1]
+    C2.index = ['r2', 'r0', 'r1']
     S = pd.Series([1.0, 2.0, np.nan], name='num')
     BN = pd.DataFrame({'id': ['u', 'v'], 's': pd.Series(['zz', mv], dtype=object)})      # nothing matches
     BM = pd.DataFrame({'id': ['u', 'v'], 's': pd.Series([mv, mv], dtype=object)})        # all missing
     BE = pd.DataFrame({'id': pd.Series([], dtype=object), 's': pd.Series([], dtype=object)})   # no rows
     # candidate set whose key columns have another dtype than the tables' keys (float after a merge / CSV)
     CF = pd.DataFrame({'_id': [0, 1, 2], 'l_id': [1.0, 2.0, 3.0], 'r_id': [7.0, 9.0, 9.0]})
+    CF.index = [7, 5, 3]
     DN = pd.DataFrame({'id': [1, 2], 'm': [np.nan, np.nan], 'z': pd.Series([], dtype='float64').reindex([0, 1])})
     DE = pd.DataFrame({'id': pd.Series([], dtype='int64'), 'm': pd.Series([], dtype='float64')})
     fts = WhitespaceTokenizer(return_set=True)
@@ -295,6 +299,12 @@ def build_alphabet(reduced=False):
     add('PrefixFilter(EDIT_DISTANCE).filter_tables(qg2_bag)',
         lambda O: ssj.PrefixFilter(O['qg2_bag'], 'EDIT_DISTANCE', 1).filter_tables(
             O['A'], O['B'], 'id', 'id', 's', 's', show_progress=False))
+    add('PrefixFilter(EDIT_DISTANCE).filter_pair(qg3_set)',
+        lambda O: ssj.PrefixFilter(O['qg3_set'], 'EDIT_DISTANCE', 1).filter_pair('abcabc', 'abcab'))
+    if not reduced:
+        add('PositionFilter(EDIT_DISTANCE).filter_tables(qg3_set)',
+            lambda O: ssj.PositionFilter(O['qg3_set'], 'EDIT_DISTANCE', 2.0).filter_tables(
+                O['A'], O['B'], 'id', 'id', 's', 's', show_progress=False))
     add('apply_matcher(tokenizer=None)',
         lambda O: ssj.apply_matcher(O['C'], 'l_id', 'r_id', O['A'], O['B'], 'id', 'id', 's', 's', None,
                                     Levenshtein().get_raw_score, 2, '<=', n_jobs=2, show_progress=False))
